@@ -426,6 +426,17 @@ def directed():
         ll[17] = 4
         for side_ in ("left", "right"):
             yield {"op": "padded", "a": {"lens": ll, "dtype": "int8", "vals": [(i % 5) + 1 for i in range(sum(ll))], "recv": "fresh"}, "side": side_, "fill": -1}
+    # 1-D input: windows that overlap and leave a gap of the same size -- first starts at 0, last ends at the end, lengths add up to the length of the vector
+    import itertools
+    for Lv_ in (5, 6, 7):
+        for st_ in itertools.product(range(Lv_), repeat=2):
+            for ln_ in itertools.product(range(1, Lv_), repeat=3):
+                starts_ = [0, st_[0], st_[1]]
+                ends_ = [starts_[i] + ln_[i] for i in range(3)]
+                if sum(ln_) != Lv_ or ends_[2] != Lv_ or max(ends_) > Lv_ or (ends_[0] == starts_[1] and ends_[1] == starts_[2]):
+                    continue
+                for op_ in ("rslice_1d", "nps"):
+                    yield {"op": op_, "dtype": "int64", "vals": [10 * (i + 1) + i for i in range(Lv_)], "starts": starts_, "ends": ends_}
     # matrices with more cells than the integer type of the window bounds can count (every bound itself is small)
     for (r_, c_), bd_ in (((300, 150), "int16"), ((200, 100), "int8"), ((2, 200), "uint8"), ((40000, 2), "int16"), ((600, 120), "uint16")):
         st_ = [(i * 7) % (c_ // 2) for i in range(r_)]
